@@ -103,6 +103,12 @@ def run_property(prop, tier, seed):
         if not pe["ok"]:
             pr["ok"] = False
             pr["output"] = (pr.get("output", "") + "\n" + pe.get("output", ""))[-3000:]
+    chk_summary = None
+    if tier == "thorough" and not pr.get("missing"):
+        ok_chk, chk_summary = C.coqchk([pid] + list(getattr(prop, "extra_props", [])))
+        if not ok_chk:
+            pr["ok"] = False
+            pr["output"] = "coqchk: " + chk_summary
     proof_absent = bool(pr.get("missing"))   # theorem file not written yet: evidence says so, level drops
     proof_ok = (not audit) and (pr["ok"] or proof_absent)
     proof_problem = None
@@ -260,6 +266,7 @@ def run_property(prop, tier, seed):
         "rule": prop.rule, "samples": samples, "batches": batch_stats,
         "exhaustive": all(b["exhaustive"] for b in batch_stats) if batch_stats else False,
         "known_findings_hit": sorted(seen_cls),
+        "coqchk": chk_summary,
         "proof_status": ("no theorem file yet (Props/%s.v): correspondence + oracle only" % pid) if proof_absent
                         else ("ok" if proof_ok else (proof_problem or "")[:600]),
     }
